@@ -69,8 +69,9 @@ theorem C04_refines_list_array [BEq α] (ops : List (Op α)) (a : Arr α) (l' : 
 theorem C04_array_out_of_range [BEq α] (a : Arr α) (op : Op α) (h : Spec.arrStep a.items op = none) :
     (a.step op).1 = a ∧ ∃ e, (a.step op).2 = .raised e := Arr.step_out_of_range a op h
 
-/-- **Capacity (T1).** `nitems ≤ nslots` in every state reachable from a fresh Array by any history whatsoever — in range
-    or not, exceptions caught and the history continued: no element record is ever outside the backing store. -/
+/-- **Capacity, list level (T1).** `nitems ≤ nslots` for the two numbers of the list-level model in every state reachable from a
+    fresh Array by any history whatsoever — in range or not, exceptions caught and the history continued.  (What this means
+    for the block — no record read, written or moved outside it — is `C04_store_array_never_ub` below.) -/
 theorem C04_capacity [BEq α] (xs : List α) (ops : List (Op α)) :
     (ops.foldl (fun a op => (a.step op).1) (Arr.new xs)).CapOk := by
   have hgen : ∀ (ops : List (Op α)) (a : Arr α), a.CapOk → (ops.foldl (fun a op => (a.step op).1) a).CapOk := by
@@ -307,6 +308,17 @@ theorem C04_tuple_not_on_heap [BEq α] (s : TupS α) (t : Tup α) (h : s.Cells t
     (hop : match op with
       | .set _ _ => False | .sort _ => False | .assign ys false => ys ≠ [] | _ => True) :
     (s.step op).1 = s ∧ ∃ e, (s.step op).2 = .raised e := TupS.stack_refuses h hs op hop
+
+/-- … while the operations that do not reallocate — `get`, `set`, `sort`, `len`, iteration, `mem` — do on ANY Tuple block
+    (`TupS.Cells`: on the heap or not) what the list-level model does -/
+theorem C04_tuple_any_block [BEq α] (s : TupS α) (t : Tup α) (h : s.Cells t) :
+    s.len = some t.len ∧ (∀ i, s.get i = t.get i) ∧
+    (∀ i x, (s.set i x).1.Cells (t.set i x).1 ∧ (s.set i x).2 = (t.set i x).2) ∧
+    (∀ f, (s.sortBy f).1.Cells (t.sortBy f).1 ∧ (s.sortBy f).2 = (t.sortBy f).2) ∧
+    (∀ (ident : α → Nat) (fuel : Nat), s.iterFwd ident fuel = t.iterFwd ident fuel ∧ s.iterBwd ident fuel = t.iterBwd ident fuel ∧
+      ∀ x, s.mem ident x fuel = t.mem ident x fuel) :=
+  ⟨h.len_sim, TupS.get_cells h, fun i x => TupS.set_cells h i x, fun f => TupS.sortBy_cells h f,
+    fun ident fuel => ⟨(TupS.iter_sim h ident fuel).1, (TupS.iter_sim h ident fuel).2, fun x => TupS.mem_sim h ident x fuel⟩⟩
 
 /-- The full statement for Tuple iteration and `mem` (which is implemented with `foreach`): in *every* Tuple state the
     iterator protocol, given enough steps, yields the stored sequence.  It is FALSE for the code as it is (known
